@@ -1,10 +1,14 @@
 SPECIFICATION Spec
 CONSTANTS
-  Interval = 4
+  Interval = 8
   MaxLen = 6
   Thresholds = {0, 1, 2, 3}
   AnswerDelays = {0}
   DrainLens = {1, 2}
+  HsSlots <- GenHsSlots
+  CtxSlots <- GenCtxSlots
+  EnvMaxLen = 4
+  EnvProduct = FALSE
 INVARIANTS TypeOK InvAccuracy InvTiming InvSilentStop InvCounter InvCompleteness InvFinal InvGoneAtClose InvNoTickAfterUser InvGoneWhenClosing Export
 PROPERTIES NoPingAfterStop Terminates
 CHECK_DEADLOCK FALSE
